@@ -25,6 +25,7 @@
    deadlocks must be exactly the ones the program structure explains) and by the deadlock detector on the implementation. *)
 From Coq Require Import ZArith List Bool.
 Require Import Verif.Gen.Gen_bounded_queue Verif.Conc.Machine Verif.BQ.BQModel Verif.BQ.BQProofs.
+Require Import Verif.BQ.BQInvDefs Verif.BQ.BQInvStep Verif.BQ.BQInvMain Verif.BQ.BQInvThm Verif.BQ.BQWake.
 Import ListNotations.
 Local Open Scope Z_scope.
 
@@ -92,19 +93,20 @@ Theorem c02_memory_order_obligations : orders_ok = true.
 Proof. exact bq_orders_ok. Qed.
 Print Assumptions c02_memory_order_obligations.
 
-(* ---- full-strength statements that are NOT proved (see header): kept visible, checked by exploration + monitors ---- *)
-Definition waits_for (s : st) (th : thread) (sl : nat) (x : Z) : Prop :=
-  exists o j, nth_error (prog th) (opi th) = Some o /\ tpc th = WParked j sl /\ wait_target s o (lc th) j = (sl, x).
-Definition waker_on_its_way (s : st) (sl : nat) : Prop :=
-  exists v thv o, nth_error (threads s) v = Some thv /\ nth_error (prog thv) (opi thv) = Some o /\
-    (tpc thv = PubWake sl \/ (exists j, tpc thv = WkWake j sl) \/
-     (fwake (oflags o) = true /\ is_single o = false /\
-      exists j j', seg_slot s o (lc thv) j = sl /\
-        (tpc thv = FenceSC \/ (tpc thv = Pub j' /\ (j < j')%nat) \/ (tpc thv = WkLoad j' /\ (j' <= j)%nat) \/
-         exists c, tpc thv = WkCas j c))).
-Definition c02_no_lost_wakeup_statement : Prop := forall k progs s, usage_ok k progs = true -> Reach k progs s ->
-  forall u thu sl x, nth_error (threads s) u = Some thu -> waits_for s thu sl x -> ver (get_slot s sl) = x ->
-  waker_on_its_way s sl.
+(* ---- no lost wakeup, combined form (all usage_ok programs, capacities, thread counts, schedules) ----
+   parkedOn s th sl x     : th sleeps in futex_wait on slot sl inside a wait_until_reach_expected_version(x) (BQ/BQWake.v)
+   waker_on_its_way s sl x: some thread has a wake_all on sl pending (exchange waker after its exchange, batch waker after its
+                            successful CAS), or is a USE_FUTEX_WAKE batch publisher of version x of slot sl that has not yet
+                            passed its wakeup_waiters check of that slot (still storing versions, at the seq_cst fence, or in
+                            the load / CAS / wake_all of an earlier slot of the same batch, or in the load / CAS of this slot)
+   small s                : every slot version is below 2^16 (the 16-bit version field has not wrapped: fewer than 2^15 rounds) *)
+Theorem c02_no_lost_wakeup : forall k progs s, usage_ok k progs = true -> Reach k progs s -> small s ->
+  forall t th sl x, nth_error (threads s) t = Some th -> parkedOn s th sl x -> ver (get_slot s sl) = x ->
+  waker_on_its_way s sl x.
+Proof. exact bq_no_lost_wakeup. Qed.
+Print Assumptions c02_no_lost_wakeup.
+
+(* ---- full-strength statement that is NOT proved (see header): kept visible, checked by exploration + monitors ---- *)
 Definition balanced (progs : list (list op)) : Prop :=
   fold_right Nat.add 0%nat (map onum (side_ops true (all_ops progs))) =
   fold_right Nat.add 0%nat (map onum (side_ops false (all_ops progs))).
